@@ -124,7 +124,12 @@ def run_family(prop, tier, propfile, components, oracle, n_quick, n_thorough, ru
     nt = nontrivial(case, out) if nontrivial else (isinstance(gi, list) and len(gi) >= 2)
     ck.count((case['seed'], json.dumps(case.get('par_final', case['par']), sort_keys=True), json.dumps(case['elig'], sort_keys=True)), nontrivial=nt)
     if oracle:
-      oracle(ck, case, out)
+      try:
+        oracle(ck, case, out)
+      except Exception:
+        import traceback
+        ck.tie_broken('harness', 'oracle raised on seed %s' % case.get('seed'),
+                      {'case': slim(case), 'traceback': traceback.format_exc()[-800:]})
   for case, out in results[n_corpus:n_corpus + 3]:
     ck.sample(describe(case, out))
   outs = [o for _, o in results]
